@@ -206,6 +206,21 @@ def directed():
     D.append(('internal-method-net' + ('-ph' if first.get('ph') else ''), top,
               [{'path': ['c0'], 'new': cl(n + 2), 'mode': 'cls'}, {'path': ['c0'], 'new': cl(n + 4), 'mode': 'obj'},
                {'path': ['c0'], 'new': plain_leaf(n + 6), 'mode': 'cls'}, {'path': ['c0'], 'new': cl(n + 7), 'mode': 'obj'}], {}))
+  # 16./17. set_param on the construct argument of replaced children: list elements at depth 1 and 2, exact and `*` form
+  #         (16 is the fixed regression F26: _add_component of a list element with parameters raised NameError ParamTreeNode)
+  def kleaf(uid, nin=1, nout=1, kind='comb'): return dict(plain_leaf(uid, nin, nout, kind), kconst=True)
+  top = _c(9160, 1, 2, items=[_k('d0[0]', kleaf(9161)), _k('d0[1]', kleaf(9162))],
+           conns=[[R('d0[0]', 'in0'), R('in0')], [R('d0[1]', 'in0'), R('in0')], [R('out0'), R('d0[0]', 'out0')], [R('out1'), R('d0[1]', 'out0')]])
+  D.append(('fixed-regression-F26-list-element-set-param', top,
+            [{'path': ['d0[0]'], 'new': kleaf(9163, kind='ff'), 'mode': 'cls'}, {'path': ['d0[0]'], 'new': kleaf(9164), 'mode': 'obj'},
+             {'path': ['d0[1]'], 'new': kleaf(9165), 'mode': 'obj'}], {'params': [['top.d0[0].construct', 7]]}))
+  mid = _c(9171, 1, 1, kconst=True, items=[_k('d0[0]', kleaf(9172)), _k('d0[1]', kleaf(9173))],
+           conns=[[R('d0[0]', 'in0'), R('in0')], [R('d0[1]', 'in0'), R('d0[0]', 'out0')], [R('out0'), R('d0[1]', 'out0')]])
+  top = _c(9170, 1, 1, items=[_k('c0', mid)], conns=[[R('c0', 'in0'), R('in0')], [R('out0'), R('c0', 'out0')]])
+  D.append(('set-param-depth2-regex', top,
+            [{'path': ['c0', 'd0[1]'], 'new': kleaf(9174), 'mode': 'cls'}, {'path': ['c0', 'd0[0]'], 'new': kleaf(9175, kind='ff'), 'mode': 'obj'},
+             {'path': ['c0'], 'new': dict(copy.deepcopy(mid), uid=9176), 'mode': 'cls'}],
+            {'params': [['top.c0.d0\\[*.construct', 12], ['top.c0.construct', 15]]}))
   return D
 
 # ----------------------------------------------------------------------------------------------- one case
@@ -339,8 +354,15 @@ def run_case(ck, case, verbose=False, report=True):
   hist = lambda n, b: ck.hist(n, b) if report else None
 
   # ---- model
-  H0 = U.hier(spec0)
-  reps = [[st['path'], U.hier(st['new'])] for st in steps]
+  params = [tuple(x) for x in case.get('params', [])]
+  def make(cls, k):
+    """instantiate a top, hand it the case's set_param calls, elaborate"""
+    x = cls(k)
+    for pat, v in params: x.set_param(pat, k=v)
+    x.elaborate()
+    return x
+  H0 = U.hier(spec0, params=params)
+  reps = [[st['path'], U.hier(st['new'], params=params, base=st['path'])] for st in steps]
   lines = [leanio.line('meta', 'elab', H0), leanio.line('meta', 'delete', H0, steps[0]['path'])]
   for i in range(len(steps)):
     lines.append(leanio.line('meta', 'replace', H0, reps[:i + 1]))
@@ -367,13 +389,13 @@ def run_case(ck, case, verbose=False, report=True):
 
   # ---- the real thing
   top_cls = U.load(ck.workdir, spec0, 'o')
-  t = top_cls(spec0['k']); t.elaborate()
+  t = make(top_cls, spec0['k'])
   obs0 = U.observe(t)
   if U.scan(t): raise InfraError(f'fresh design is not clean: {U.scan(t)[:3]}')
   if not nomodel: compare('elaborate', m_elab, obs0)
 
   # _delete_component alone, on a second instance
-  td = top_cls(spec0['k']); td.elaborate()
+  td = make(top_cls, spec0['k'])
   p0 = steps[0]['path']
   try:
     sv = td._delete_component(U.get_obj(td, p0))
@@ -421,7 +443,7 @@ def run_case(ck, case, verbose=False, report=True):
     obj = U.get_obj(t, path)
     try:
       if st['mode'] == 'cls': t.replace_component(obj, new_cls)
-      else: t.replace_component_with_obj(obj, new_cls(st['new']['k']))
+      else: t.replace_component_with_obj(obj, new_cls(k=st['new']['k']))
     except Exception as e:
       try:
         left = sorted({n: 1 for n in [leftover_name(*x) for x in U.scan(t)] if n} | special_leftovers(t), key=lambda n: order((n, 0)))
@@ -434,7 +456,7 @@ def run_case(ck, case, verbose=False, report=True):
       break
     cur = U.subst(cur, path, st['new'])
     obs_r = U.observe(t)
-    ts = U.load(ck.workdir, cur, 's')(cur['k']); ts.elaborate()
+    ts = make(U.load(ck.workdir, cur, 's'), cur['k'])
     obs_s = U.observe(ts)
     if U.scan(ts): raise InfraError(f'fresh design is not clean: {U.scan(ts)[:3]}')
     # direct oracle 1: by-name metadata equal to the from-scratch design
@@ -470,6 +492,8 @@ def run_case(ck, case, verbose=False, report=True):
         if m_rep[i][0] != m_bld[i]:
           if report: ck.disagreement('model-replace-vs-build', case, 'differs', '')
         compare(f'replace[{i}]', m_rep[i][0], obs_r, skip=bad_fields)
+    for pat, _ in params:
+      if U.param_matches(pat, tuple(path)): hist('set_param_on_replaced', ('regex ' if '*' in pat else 'exact ') + ('list' if '[' in path[-1] else 'attr') + f' depth{len(path)}')
     hist('mode', st['mode']); hist('replaced_depth', len(path))
     hist('list_position', '[' in path[-1])
     if old.get('ph'): hist('removed_subtree_has', 'placeholder')
@@ -494,11 +518,11 @@ def run_case(ck, case, verbose=False, report=True):
         n = flags.get('blame')
         if n and n in names_seen and case['kind'].startswith('directed:'): return {sigkey(n): n, 'effect': 'simulation'}
         if 'update_once' in names_seen:
-          t2 = top_cls(spec0['k']); t2.elaborate()
+          t2 = make(top_cls, spec0['k'])
           for st in steps:
             o2 = U.get_obj(t2, st['path']); c2 = U.load(ck.workdir, st['new'], 'm')
             if st['mode'] == 'cls': t2.replace_component(o2, c2)
-            else: t2.replace_component_with_obj(o2, c2(st['new']['k']))
+            else: t2.replace_component_with_obj(o2, c2(k=st['new']['k']))
           live = set(t2._dsl.all_upblks)
           t2._dsl.all_update_once -= {b for b in t2._dsl.all_update_once if b not in live}
           try:
@@ -541,7 +565,35 @@ def random_case(rng, g, idx):
     steps.append({'path': list(path), 'new': new, 'mode': mode})
     cur = U.subst(cur, path, new)
   inputs = [[rng.randint(0, 255) for _ in range(spec['nin'])] for _ in range(5)]
-  return {'kind': 'random', 'idx': idx, 'spec': spec, 'steps': steps, 'inputs': inputs}
+  return {'kind': 'random', 'idx': idx, 'spec': spec, 'steps': steps, 'inputs': inputs,
+          'params': gen_params(rng, spec, steps) if rng.random() < 0.5 else []}
+
+def gen_params(rng, spec, steps):
+  """set_param calls on the construct argument `k` of replaced children (and of a few others): exact names and the
+  `*` (regular expression, re.match) form; every addressed component publishes k as a constant (s.kc //= k). At most
+  one call reaches any component of any stage, so the value it gets does not depend on dict order."""
+  import re
+  trees = [spec]
+  for st in steps: trees.append(U.subst(trees[-1], st['path'], st['new']))
+  allp = sorted({p for t in trees for p in U.paths(t)})
+  cands = [tuple(st['path']) for st in steps] + [rng.choice(allp) for _ in range(2)]
+  rng.shuffle(cands)
+  params = []
+  for path in cands[:rng.randint(1, 3)]:
+    tok = path[-1]
+    r = rng.random()
+    if r < 0.55: last = tok
+    elif r < 0.8: last = tok[:2] + '*'                                   # c0* / d0*: 'c' or 'd' followed by 0s, then anything
+    else: last = (tok[:3].replace('[', '\\[') + '*') if '[' in tok else tok[:1] + '*'   # d0\[* : every element of list d0
+    pat = '.'.join(['top'] + list(path[:-1]) + [last, 'construct'])
+    trial = params + [[pat, rng.randint(10, 19)]]
+    if all(sum(U.param_matches(p, q) for p, _ in trial) <= 1 for q in allp): params = trial
+  for t in trees:
+    for q in U.paths(t):
+      if any(U.param_matches(p, q) for p, _ in params):
+        c = U.sub(t, q)
+        if not c.get('ph'): c['kconst'] = True
+  return params
 
 def nontrivial(case):
   cur = case['spec']
@@ -562,7 +614,7 @@ def run(ck):
   quiet_dump_dag()
   rng = ck.rng
   for name, spec, steps, flags in directed():
-    case = {'kind': 'directed:' + name, 'spec': spec, 'steps': steps, 'flags': flags,
+    case = {'kind': 'directed:' + name, 'spec': spec, 'steps': steps, 'flags': flags, 'params': flags.get('params', []),
             'inputs': [[(17 * c + 5 * j + 3) % 256 for j in range(spec['nin'])] for c in range(5)]}
     run_case(ck, case)
     U.unload()
